@@ -1575,7 +1575,6 @@ class WBEMListener:
                 self.logger.info(
                     "%s indications discarded from indication queue",
                     clr_count)
-            self._ind_queue = None
 
         # Tolerate that callback thread has already stopped, just in case.
         if self._callback_thread:
@@ -1584,6 +1583,10 @@ class WBEMListener:
             self._callback_thread.join()
             self.logger.info("Stopped callback thread")
             self._callback_thread = None
+
+        # The queue is released only after the callback thread has ended,
+        # because that thread accesses it until then.
+        self._ind_queue = None
 
     def _stop_listener_threads(self):
         """
